@@ -33,3 +33,14 @@ Fixpoint read_leb128_aux (l : list Z) (acc : Z) (i : Z) : option (Z * Z) :=
               else read_leb128_aux t (u64 (Z.shiftl acc 8)) (i + 1)
   end.
 Definition read_leb128 (l : list Z) : option (Z * Z) := read_leb128_aux l 0 0.
+
+(* EncodeLEB128: the same bytes, first byte most significant, packed into one uint (64 bits):
+   for { out |= in & 0x7f; in >>= 7; if in != 0 { out |= 0x80; out <<= 8 } else { return out } } *)
+Fixpoint encode_leb128_aux (fuel : nat) (inp out : Z) : Z :=
+  match fuel with
+  | O => out
+  | S f => let out := Z.lor out (Z.land inp 127) in
+           let inp := Z.shiftr inp 7 in
+           if inp =? 0 then out else encode_leb128_aux f inp (u64 (Z.shiftl (Z.lor out 128) 8))
+  end.
+Definition encode_leb128 (v : Z) : Z := encode_leb128_aux 10 (u64 v) 0.
